@@ -2,7 +2,8 @@ ID = "C11"
 
 PROP = {
     "level": "exploration",
-    "rule": ("the real config.TxnPoliciesAccessor (built by config.BuildInitialFromFile from a scratch policies.yaml, validation rules registered as "
+    "rule": ("[unit TestMessageHandlersE2E: a real policy-mode HandlingDataManager; 2-6 transactions (first attempts with id == sequence id and retried attempts with a fresh id and the first attempt's sequence id) send their request and response SPOE messages through routing.Handler in a generated order with reloads that switch a global retry remedy on or off; a 5xx response must get a modify_response action exactly when the version current at its own request enables the remedy] "
+             "the real config.TxnPoliciesAccessor (built by config.BuildInitialFromFile from a scratch policies.yaml, validation rules registered as "
              "routing.initializePolicies does) on a virtual clock; every policy version carries a unique marker in the name of a disabled global remedy. "
              "TestHistories: rapid histories of <=40 events over transaction ids that are unique but close to one another (prefixes, case variants, blanks): "
              "request(i) = first GetTxnPoliciesData(i); response(i) = a further look-up (response handler / diagnosis worker); reload by UpdatePoliciesData, "
@@ -28,6 +29,7 @@ PROP = {
         {"pkg": "c11", "test": "TestHistories", "quick": 3000, "thorough": 20000, "shards": 16},
         {"pkg": "c11", "test": "TestBurst", "quick": 1500, "thorough": 10000, "shards": 16},
         {"pkg": "c11", "test": "TestBoundaryGrid", "kind": "plain"},
+        {"pkg": "c11", "test": "TestMessageHandlersE2E", "quick": 1500, "thorough": 30000, "shards": 1},
     ],
     "technique": ("stateful property-based testing (rapid) of the real accessor and its two vacuum goroutines under a deterministic virtual clock (hand-shake on every "
                   "vacuum pass) + bounded-exhaustive boundary grid + concurrent burst; oracle = snapshot-isolation reference model (versions in creation order, "
